@@ -522,7 +522,8 @@ func Families(tier string) []Family {
 			} else {
 				toks = append(toks, T("--o=false"), T("--o=true"))
 			}
-			for ei, ev := range []string{"<unset>", "", k.valid, k.invalid, k.mixed, k.deflt, "false", "FALSE"} {
+			// for a bool only the words true / false (any case) count; what strconv.ParseBool would also accept does not
+			for ei, ev := range []string{"<unset>", "", k.valid, k.invalid, k.mixed, k.deflt, "false", "FALSE", "1", "0", "t", "F"} {
 				if ei >= 6 && k.kind != "bool" {
 					continue
 				}
@@ -702,7 +703,7 @@ func Families(tier string) []Family {
 	// order: at least two entries in every table a diagnostic is chosen from (C20)
 	{
 		f := Family{Name: "order"}
-		toks := Ts("--ver", "--u1", "--u2", "-u3", "c1", "c2", "--aaa=x", "--bbb=y", "--ccc", "--help", "help", "x", "c")
+		toks := Ts("--ver", "--ve", "--u1", "--u2", "-u3", "c1", "c2", "--aaa=x", "--bbb=y", "--ccc", "--help", "help", "x", "c")
 		for _, um := range []int{0, 1} {
 			for mode := 0; mode < 2; mode++ {
 				c := Cfg{Mode: mode}
@@ -716,7 +717,7 @@ func Families(tier string) []Family {
 				ccc.Req = true
 				ddd := opt("int", "ddd", 2)
 				ddd.Req, ddd.HasMsg, ddd.ReqMsg = true, true, T("ddd is needed")
-				c.Opts = []OptCfg{aaa, bbb, ccc, ddd, opt("bool", "verbose", 1), opt("bool", "version", 1)}
+				c.Opts = []OptCfg{aaa, bbb, ccc, ddd, opt("bool", "verbose", 1), opt("bool", "version", 1), opt("bool", "verify", 1, "vet")} // --ver: three candidates, --ve: four
 				c = WithHelp(c, "help")
 				f.Defs = append(f.Defs, Def{Cfg: c, Tokens: toks, L: lim(tier, 3, 4), Disp: true})
 			}
